@@ -27,6 +27,8 @@ CLAIMED = {
          "Content-Type ignored; '-0' excluded; the handler's block size is fixed (65536): block sizes 1..size+1 are covered by C14."),
  "C09": ("Theorems: admit_iff (admitted iff 'Basic' in any case, one space, a space-free token that decodes to user:password with that exact user registered with that exact password), spec_admits_iff / model_meets_spec (the boolean statement evaluated on implementation observations is the same predicate), refusal_response (401 + WWW-Authenticate: Basic realm=..., page, close), admitted_silent, token_exists (fromBase64 (toBase64 s) = s for every byte string). Tie: BasicAuthMiddleware::process on a Socket over SimTcp vs. model: credential tables x structured near misses; fromBase64/toBase64 vs. model.",
          "'base64-decodes to' is Qt's lenient decoder (modelled, compared on every run); users/passwords valid UTF-8."),
+ "C10": ("PARTIAL. Theorems on the lifecycle model (HTTP socket with its private object and TCP socket, copier + file, posted-event queue with Qt's round semantics, any number of simultaneous connections, handler kinds default / filesystem / slot-waiting-for-body / passive): no_use_after_delete (EVERY schedule of feeds, flushes, peer resets, application closes, turns, opens and server destruction runs without touching a deleted object and keeps the ownership invariant), released_after_close (once the transport reported the disconnect or the server is gone, then after ANY continuation the first event-loop turn releases socket, TCP socket, copier and file, for good), idle_after_all_closed (counts return to idle), unguarded_refuted (the pre-repair FilesystemHandler lambda does touch a deleted socket). Tie: (a) family lifed: the real ServerPrivate::process wiring + handlers over SimTcp in life mode, explicit turns, liveness of every per-connection object (QPointer, guarded copier counter, /proc/self/fd) observed after EVERY operation and compared with the model, under ASan/UBSan; (b) family life: a listening Server with real loopback clients for all four handler kinds incl. ProxyHandler, disconnecting/aborting/destroying at chosen points, judged by the extracted spec (live objects and descriptors back to idle).",
+         "Not exhibited by the model: ProxySocket/upstream socket lifecycle and TLS sockets (covered only by the loopback family, spec-only, real timing); memory errors are whatever ASan/UBSan report on the executed schedules, not a theorem about the C++; QAbstractSocket::close/disconnected semantics are SimTcp's life mode in family lifed. Hook: qhttpengine_verif_live_copiers (guarded)."),
  "C15": ("Theorems: exact_name (the registration in force is the last one under exactly that name), unregistered_404, bad_slot_500, invoke_now / deferred_otherwise (deferred exactly when the whole body is asked for and fewer than the declared bytes are readable), deferred_invoked_once (for EVERY segmentation: exactly once iff the N-th byte arrives, nothing afterwards), full_body_at_invocation. Tie: QObjectHandler as root of the real server wiring over SimTcp: registries through the four registration forms + bad slots x paths x bodies x segmentations; the slot logs bytesAvailable().",
          "request targets in the C01 class."),
  "C17": ("Theorems: file_invariant (for EVERY history of calls: while an instance is alive the file exists with mode 0600 and holds the current data incl. the token member), construct_establishes, set_data_keeps, admit_iff_token, removed_on_destroy. Tie: LocalAuthMiddleware with HOME redirected: histories x umasks x pre-existing permissive file, file mode/content observed after EVERY call, process() with token variants. PARTIAL: 'tokens of distinct instances differ' is randomness of QUuid - observed (N successive instances distinct), not proved.",
@@ -65,9 +67,9 @@ m = {
  "version": 1,
  "setup_cmd": "./setup.sh",
  "hooks": {"guard": "QHTTPENGINE_VERIF",
-           "enable": "harness/CMakeLists.txt compiles /repo's sources with -DQHTTPENGINE_VERIF (no hook is currently needed: the harness drives the unmodified library through a QTcpSocket subclass; the guard is reserved)",
+           "enable": "harness/CMakeLists.txt compiles /repo's sources with -DQHTTPENGINE_VERIF; the only hook is the counter qhttpengine_verif_live_copiers in qiodevicecopier.cpp (live QIODeviceCopier objects, used by C10); everything else drives the unmodified library through a QTcpSocket subclass",
            "baseline_off_cmd": "cmake --build /repo/_build && ctest --test-dir /repo/_build -j8 --timeout 900",
-           "source_commits": [], "add_only": True},
+           "source_commits": ["c3235f4"], "add_only": True},
  "engines": [{"name": "coq-proof+correspondence", "path": "/verif/check.py", "serves_properties": sorted(CLAIMED),
               "kind_free_text": "Coq 8.16.1 theorems over hand-written Gallina models (coq/), extracted to OCaml (ocaml/driver) and run against the library rebuilt from /repo (harness/hx, ASan+UBSan) on generated cases (gen/); spec checkers extracted from Coq evaluate the property on implementation observations"}],
  "checks": checks,
